@@ -492,3 +492,252 @@ Proof.
   - constructor; [left; reflexivity | constructor; [right; left; reflexivity | constructor]].
   - intros cxs _. apply linear_gram_psd.
 Qed.
+
+(* ---------------- rounding: the kernels and the decision function in binary64 ----------------
+   Everything above is about exact real arithmetic (ROps).  The theorems below are about the binary64
+   instance (FOps, Coq primitive floats) of the SAME model definitions — the instance the per-run
+   correspondence executes against src/svm/{mod,svc,svr}.rs — proved through Flocq's primitive-float
+   bridge (SC.Base.FloatError, SC.C17.ProofsFloat, SC.C10.ProofsFloat); extra assumptions: the
+   FloatAxioms / Uint63 specification axioms of Coq's standard library that give primitive floats their
+   meaning.  Only the STRAIGHT-LINE parts are covered: the arithmetic of the kernels and the decision
+   function / label rule.  Training (SMO) is iterative: no rounding theorem.  exp (RBF), powf
+   (polynomial) and tanh (sigmoid) are library routines in Rust and software routines in the binary64
+   instance: no bound is proved for them, only for the arithmetic that produces their ARGUMENT.
+   Vocabulary: `FR d` = the real value of the float d (0 for infinities and NaN); `map FR x` the real
+   vector of a float vector; u64 = 2^-53, eta64 = 2^-1075; rdot / rsqdist = the plain recursive sums
+   sum x_i y_i and sum (x_i - y_i)^2 (C10/ProofsKernel.v).  The only no-overflow hypothesis is that the
+   RESULT is finite: non-finite values are absorbing for addition, subtraction and multiplication, so
+   all inputs and intermediates are then finite and nothing overflowed. *)
+From SC Require Import Base.FloatUtil Base.FloatError C10.ProofsFloat C10.ProofsFloatEx.
+From SC Require C17.Model.
+
+(* the linear kernel of two float rows of p coordinates is the dot-product loop (p products, p additions
+   starting from 0, the first one exact): error (1+u)^p - 1 relative to the sum of the magnitudes
+   sum |x_i y_i| (written as the linear kernel of the rows of absolute values), plus p underflow terms *)
+Theorem C10_linear_kernel_float_error : forall x y : list PrimFloat.float,
+  length x = length y -> PrimFloat.is_finite (k_linear FOps x y) = true ->
+  let p := length x in
+  let xr := map FR x in let yr := map FR y in
+  Forall (fun a => PrimFloat.is_finite a = true) x /\ Forall (fun a => PrimFloat.is_finite a = true) y /\
+  k_linear ROps xr yr = rdot xr yr /\
+  Rabs (FR (k_linear FOps x y) - k_linear ROps xr yr) <=
+    ((1 + u64) ^ p - 1) * (k_linear ROps (map Rabs xr) (map Rabs yr) + INR p * eta64) + INR p * eta64.
+Proof. exact linear_kernel_float_error. Qed.
+
+(* gamma * <x,y> + coef0 — the value handed to powf (polynomial kernel) resp. tanh (sigmoid kernel):
+   with e = the dot-product bound above, g = |gamma|, c = |coef0|, D = |<x,y>|, A = sum |x_i y_i| *)
+Theorem C10_kernel_affine_float_error : forall (gamma coef0 : PrimFloat.float) (x y : list PrimFloat.float),
+  PrimFloat.is_finite (PrimFloat.add (PrimFloat.mul gamma (dot FOps x y)) coef0) = true ->
+  let p := Nat.min (length x) (length y) in
+  let d := rdot (map FR x) (map FR y) in
+  let A := rdot (map (fun a => Rabs (FR a)) x) (map (fun a => Rabs (FR a)) y) in
+  let e := ((1 + u64) ^ p - 1) * (A + INR p * eta64) + INR p * eta64 in
+  let g := Rabs (FR gamma) in
+  Rabs (FR (PrimFloat.add (PrimFloat.mul gamma (dot FOps x y)) coef0) - (FR gamma * d + FR coef0)) <=
+    ((1 + u64) ^ 2 - 1) * (g * (Rabs d + e)) + g * e + u64 * Rabs (FR coef0) + (1 + u64) * eta64.
+Proof. exact kernel_affine_float_error. Qed.
+
+Theorem C10_kernel_affine_is_model : forall (pw : PrimFloat.float -> PrimFloat.float -> PrimFloat.float)
+    (th : PrimFloat.float -> PrimFloat.float) (degree gamma coef0 : PrimFloat.float) (x y : list PrimFloat.float),
+  k_poly FOps pw degree gamma coef0 x y = pw (PrimFloat.add (PrimFloat.mul gamma (dot FOps x y)) coef0) degree /\
+  k_sigmoid FOps th gamma coef0 x y = th (PrimFloat.add (PrimFloat.mul gamma (dot FOps x y)) coef0).
+Proof. intros. split; reflexivity. Qed.
+
+(* RBF, the squared-distance half: the model's sqdist is the same left fold as C17's squared_distance
+   (C10_sqdist_same_fold), so C17's bound holds for it: (1+u)^(p+2) - 1 relative to the exact squared
+   distance D plus p underflow terms; purely relative when no difference is a non-zero number below
+   2^-510.  exp itself is NOT covered. *)
+Theorem C10_sqdist_same_fold : forall (T : Type) (O : Ops T) (x y : list T),
+  sqdist O x y = C17.Model.sq_dist_loop O x y.
+Proof. exact @sqdist_is_C17. Qed.
+
+Theorem C10_rbf_argument_float_error : forall x y : list PrimFloat.float,
+  length x = length y -> PrimFloat.is_finite (sqdist FOps x y) = true ->
+  let p := length x in
+  let D := rsqdist (map FR x) (map FR y) in
+  sqdist ROps (map FR x) (map FR y) = D /\
+  Forall (fun a => PrimFloat.is_finite a = true) x /\ Forall (fun a => PrimFloat.is_finite a = true) y /\
+  0 <= D /\ 0 <= FR (sqdist FOps x y) /\
+  Rabs (FR (sqdist FOps x y) - D) <= ((1 + u64) ^ (p + 2) - 1) * (D + INR p * eta64) + INR p * eta64 /\
+  ((forall a b, In (a, b) (combine x y) -> FR a = FR b \/ / 2 ^ 510 <= Rabs (FR a - FR b)) ->
+   Rabs (FR (sqdist FOps x y) - D) <= ((1 + u64) ^ (p + 2) - 1) * D).
+Proof. exact rbf_argument_float_error. Qed.
+
+(* the argument handed to exp, (-gamma) * sqdist: the negation is exact, the product one more rounding *)
+Theorem C10_rbf_exponent_float_error : forall (gamma : PrimFloat.float) (x y : list PrimFloat.float),
+  length x = length y -> PrimFloat.is_finite (PrimFloat.mul (PrimFloat.opp gamma) (sqdist FOps x y)) = true ->
+  let p := length x in
+  let D := rsqdist (map FR x) (map FR y) in
+  let e := ((1 + u64) ^ (p + 2) - 1) * (D + INR p * eta64) + INR p * eta64 in
+  k_rbf FOps gamma x y = oexp FOps (PrimFloat.mul (PrimFloat.opp gamma) (sqdist FOps x y)) /\
+  PrimFloat.is_finite gamma = true /\ PrimFloat.is_finite (sqdist FOps x y) = true /\
+  Rabs (FR (PrimFloat.mul (PrimFloat.opp gamma) (sqdist FOps x y)) - (- FR gamma * D)) <=
+    Rabs (FR gamma) * (u64 * D + (1 + u64) * e) + eta64.
+Proof. intros gamma x y L H. split; [reflexivity | exact (rbf_exponent_float_error gamma x y L H)]. Qed.
+
+(* the decision function f = b + w_1 K(x,s_1) + ... + w_n K(x,s_n), accumulated in this order starting
+   from b (SVC::predict_for_row, SVR::predict_for_row), for ANY float kernel K: if every computed kernel
+   value that is finite is within err(s_i) of an exact kernel KR on the real values, then the computed
+   decision value, if finite, is within
+       ((1+u)^(n+1) - 1) * S + ((1+u)^n - 1) * (|b| + n eta) + n eta + E
+   of the exact-arithmetic decision value of the model, where
+       S = sum |w_i| (|KR(x,s_i)| + err s_i),   E = sum |w_i| err s_i
+   (n products, n inexact additions; the kernel errors enter once, amplified by the weights). *)
+Theorem C10_decision_function_float_error :
+  forall (K : list PrimFloat.float -> list PrimFloat.float -> PrimFloat.float) (KR : list R -> list R -> R)
+         (err : list PrimFloat.float -> R) (x : list PrimFloat.float)
+         (inst : list (list PrimFloat.float)) (w : list PrimFloat.float) (b : PrimFloat.float),
+  (forall s, In s inst -> PrimFloat.is_finite (K x s) = true ->
+             Rabs (FR (K x s) - KR (map FR x) (map FR s)) <= err s) ->
+  PrimFloat.is_finite (decision FOps K inst w b x) = true ->
+  let L := combine inst w in
+  let n := length L in
+  let A := Rsuml (map (fun sw => FR (snd sw) * KR (map FR x) (map FR (fst sw))) L) in
+  let S := Rsuml (map (fun sw => Rabs (FR (snd sw)) * (Rabs (KR (map FR x) (map FR (fst sw))) + err (fst sw))) L) in
+  let E := Rsuml (map (fun sw => Rabs (FR (snd sw)) * err (fst sw)) L) in
+  let fR := decision ROps KR (map (map FR) inst) (map FR w) (FR b) (map FR x) in
+  fR = FR b + A /\ PrimFloat.is_finite b = true /\
+  Rabs (FR (decision FOps K inst w b x) - fR) <=
+    ((1 + u64) ^ (n + 1) - 1) * S + ((1 + u64) ^ n - 1) * (Rabs (FR b) + INR n * eta64) + INR n * eta64 + E.
+Proof.
+  intros K KR err x inst w b Hc Hf.
+  destruct (decision_function_float_error K KR err x inst w b Hc Hf) as (H1 & H2 & _ & _ & H3).
+  split; [exact H1|]. split; [exact H2 | exact H3].
+Qed.
+
+(* the label rule (larger class c1 iff decision > 0): if the exact decision value exceeds that bound in
+   magnitude, the binary64 classifier returns the label of the exact-arithmetic classifier *)
+Theorem C10_predict_sign_float_robust :
+  forall (K : list PrimFloat.float -> list PrimFloat.float -> PrimFloat.float) (KR : list R -> list R -> R)
+         (err : list PrimFloat.float -> R) (x : list PrimFloat.float) (c0 c1 : PrimFloat.float)
+         (inst : list (list PrimFloat.float)) (w : list PrimFloat.float) (b : PrimFloat.float),
+  (forall s, In s inst -> PrimFloat.is_finite (K x s) = true ->
+             Rabs (FR (K x s) - KR (map FR x) (map FR s)) <= err s) ->
+  PrimFloat.is_finite (decision FOps K inst w b x) = true ->
+  let L := combine inst w in
+  let n := length L in
+  let S := Rsuml (map (fun sw => Rabs (FR (snd sw)) * (Rabs (KR (map FR x) (map FR (fst sw))) + err (fst sw))) L) in
+  let E := Rsuml (map (fun sw => Rabs (FR (snd sw)) * err (fst sw)) L) in
+  let fR := decision ROps KR (map (map FR) inst) (map FR w) (FR b) (map FR x) in
+  ((1 + u64) ^ (n + 1) - 1) * S + ((1 + u64) ^ n - 1) * (Rabs (FR b) + INR n * eta64) + INR n * eta64 + E < Rabs fR ->
+  (0 < fR -> svc_predict FOps K c0 c1 inst w b x = c1) /\
+  (fR < 0 -> svc_predict FOps K c0 c1 inst w b x = c0) /\
+  FR (svc_predict FOps K c0 c1 inst w b x) =
+    svc_predict ROps KR (FR c0) (FR c1) (map (map FR) inst) (map FR w) (FR b) (map FR x).
+Proof. exact predict_sign_float_robust. Qed.
+
+(* the linear-kernel classifier end to end: the kernel hypothesis is discharged by
+   C10_linear_kernel_float_error, err(s) = the dot-product bound of x and s *)
+Theorem C10_predict_sign_linear_float_robust :
+  forall (c0 c1 : PrimFloat.float) (inst : list (list PrimFloat.float)) (w : list PrimFloat.float)
+         (b : PrimFloat.float) (x : list PrimFloat.float),
+  PrimFloat.is_finite (decision FOps (k_linear FOps) inst w b x) = true ->
+  let err := fun s : list PrimFloat.float =>
+    let p := Nat.min (length x) (length s) in
+    ((1 + u64) ^ p - 1) * (rdot (map (fun a => Rabs (FR a)) x) (map (fun a => Rabs (FR a)) s) + INR p * eta64)
+    + INR p * eta64 in
+  let KR := k_linear ROps in
+  let L := combine inst w in
+  let n := length L in
+  let S := Rsuml (map (fun sw => Rabs (FR (snd sw)) * (Rabs (KR (map FR x) (map FR (fst sw))) + err (fst sw))) L) in
+  let E := Rsuml (map (fun sw => Rabs (FR (snd sw)) * err (fst sw)) L) in
+  let fR := decision ROps KR (map (map FR) inst) (map FR w) (FR b) (map FR x) in
+  let bound := ((1 + u64) ^ (n + 1) - 1) * S + ((1 + u64) ^ n - 1) * (Rabs (FR b) + INR n * eta64) + INR n * eta64 + E in
+  Rabs (FR (decision FOps (k_linear FOps) inst w b x) - fR) <= bound /\
+  (bound < Rabs fR ->
+   FR (svc_predict FOps (k_linear FOps) c0 c1 inst w b x) =
+     svc_predict ROps KR (FR c0) (FR c1) (map (map FR) inst) (map FR w) (FR b) (map FR x) /\
+   svc_predict FOps (k_linear FOps) c0 c1 inst w b x = (if Rlt_dec 0 fR then c1 else c0)).
+Proof.
+  intros c0 c1 inst w b x Hf. split.
+  - exact (decision_function_linear_float_error inst w b x Hf).
+  - exact (predict_sign_linear_float_robust c0 c1 inst w b x Hf).
+Qed.
+
+(* the hypotheses are satisfiable on inexact data: a linear-kernel classifier with support vectors
+   (0.3,0.7), (5.3,4.1), (-3.7,6.9), weights 0.3, -0.1, 0.2, intercept 0.1 and the row (0.1,0.2): the
+   computed decision value is finite, the bound of C10_predict_sign_linear_float_robust is below 2^-50
+   and below the exact decision value (about 0.218), and the binary64 label is the larger class *)
+Example C10_predict_sign_float_robust_instance :
+  let inst := [[0x1.3333333333333p-2; 0x1.6666666666666p-1]; [0x1.5333333333333p+2; 0x1.0666666666666p+2];
+               [-0x1.d99999999999ap+1; 0x1.b99999999999ap+2]]%float in
+  let w := [0x1.3333333333333p-2; -0x1.999999999999ap-4; 0x1.999999999999ap-3]%float in
+  let b := 0x1.999999999999ap-4%float in
+  let x := [0x1.999999999999ap-4; 0x1.999999999999ap-3]%float in
+  let err := fun s : list PrimFloat.float =>
+    let p := Nat.min (length x) (length s) in
+    ((1 + u64) ^ p - 1) * (rdot (map (fun a => Rabs (FR a)) x) (map (fun a => Rabs (FR a)) s) + INR p * eta64)
+    + INR p * eta64 in
+  let KR := k_linear ROps in
+  let L := combine inst w in
+  let n := length L in
+  let S := Rsuml (map (fun sw => Rabs (FR (snd sw)) * (Rabs (KR (map FR x) (map FR (fst sw))) + err (fst sw))) L) in
+  let E := Rsuml (map (fun sw => Rabs (FR (snd sw)) * err (fst sw)) L) in
+  let fR := decision ROps KR (map (map FR) inst) (map FR w) (FR b) (map FR x) in
+  let bound := ((1 + u64) ^ (n + 1) - 1) * S + ((1 + u64) ^ n - 1) * (Rabs (FR b) + INR n * eta64) + INR n * eta64 + E in
+  PrimFloat.is_finite (decision FOps (k_linear FOps) inst w b x) = true /\
+  (bound < Rabs fR /\ bound <= / 2 ^ 50 /\ 0 < fR) /\
+  svc_predict FOps (k_linear FOps) (-1)%float 1%float inst w b x = 1%float.
+Proof. exact ex_decision_robust. Qed.
+
+(* THE MARGIN IS NEEDED.  x = (1), three support vectors (1), weights 2^53, 1, -2^53, b = 0, linear kernel:
+   every kernel value and every product is exact and everything is finite; the exact decision value is 1,
+   the computed one ((0 + 2^53) + 1) - 2^53 = 0 (2^53 + 1 is a tie, rounded to even), and the binary64
+   classifier returns the smaller class although the exact-arithmetic one returns the larger *)
+Theorem C10_predict_sign_float_margin_needed_refuted :
+  let inst := [[1]; [1]; [1]]%float in
+  let w := [0x1p+53; 1; -0x1p+53]%float in
+  PrimFloat.is_finite (decision FOps (k_linear FOps) inst w 0%float [1%float]) = true /\
+  decision ROps (k_linear ROps) (map (map FR) inst) (map FR w) (FR 0%float) (map FR [1%float]) = 1 /\
+  FR (decision FOps (k_linear FOps) inst w 0%float [1%float]) = 0 /\
+  svc_predict FOps (k_linear FOps) (-1)%float 1%float inst w 0%float [1%float] = (-1)%float /\
+  svc_predict ROps (k_linear ROps) (FR (-1)%float) (FR 1%float) (map (map FR) inst) (map FR w) (FR 0%float)
+              (map FR [1%float]) = FR 1%float.
+Proof. exact ex_margin_needed. Qed.
+
+(* the hypotheses of the kernel theorems on 3-dimensional inexact rows (gamma = 0.5 / coef0 = 1 for the
+   affine part, gamma = 0.2 for the RBF exponent) *)
+Example C10_kernel_float_instances :
+  let x := [0x1.999999999999ap-4; 0x1.999999999999ap-3; 0x1.3333333333333p-2]%float in
+  let y := [0x1.3333333333333p-2; (-0x1.999999999999ap-4); 0x1.6666666666666p-1]%float in
+  length x = length y /\
+  PrimFloat.is_finite (k_linear FOps x y) = true /\
+  PrimFloat.is_finite (PrimFloat.add (PrimFloat.mul 0x1p-1%float (dot FOps x y)) 1%float) = true /\
+  PrimFloat.is_finite (sqdist FOps x y) = true /\
+  PrimFloat.is_finite (PrimFloat.mul (PrimFloat.opp 0x1.999999999999ap-3%float) (sqdist FOps x y)) = true /\
+  (forall a b, In (a, b) (combine x y) -> FR a = FR b \/ / 2 ^ 510 <= Rabs (FR a - FR b)).
+Proof. exact ex_kernels. Qed.
+
+(* the RBF kernel VALUE, CONDITIONAL on the accuracy of exp.  Nothing is proved about the exp routine
+   (libm in Rust, Base/Elem.v in the binary64 instance).  IF on the argument t = (-gamma) * sqdist at hand
+   its result is within relative error delta of exp(t) — an ASSUMPTION of this theorem — THEN the computed
+   kernel value is within ((exp ea - 1) + delta exp ea) * K of the exact K = exp(-gamma |x-y|^2), where ea is
+   the proved bound of C10_rbf_exponent_float_error on the argument.  This is the per-support-vector
+   hypothesis of C10_decision_function_float_error for the RBF kernel, with err = that bound. *)
+From SC Require Import C10.ProofsFloatRbf C10.ProofsFloatRbfEx.
+
+Theorem C10_rbf_kernel_float_error_given_exp :
+  forall (delta : R) (gamma : PrimFloat.float) (x y : list PrimFloat.float),
+  length x = length y -> 0 <= delta ->
+  let t := PrimFloat.mul (PrimFloat.opp gamma) (sqdist FOps x y) in
+  PrimFloat.is_finite t = true ->
+  Rabs (FR (oexp FOps t) - exp (FR t)) <= delta * exp (FR t) ->
+  let p := length x in
+  let D := rsqdist (map FR x) (map FR y) in
+  let e := ((1 + u64) ^ (p + 2) - 1) * (D + INR p * eta64) + INR p * eta64 in
+  let ea := Rabs (FR gamma) * (u64 * D + (1 + u64) * e) + eta64 in
+  k_rbf ROps (FR gamma) (map FR x) (map FR y) = exp (- FR gamma * D) /\
+  Rabs (FR (k_rbf FOps gamma x y) - k_rbf ROps (FR gamma) (map FR x) (map FR y)) <=
+    ((exp ea - 1) + delta * exp ea) * exp (- FR gamma * D).
+Proof. exact rbf_kernel_float_error_given_exp. Qed.
+
+(* the hypotheses, including the assumed accuracy of exp with delta = 2^-40, hold on the rows of
+   C10_kernel_float_instances with gamma = 0.2 (the software exp of the binary64 instance evaluated by
+   vm_compute, the real exp enclosed by interval arithmetic) *)
+Example C10_rbf_kernel_float_instance :
+  let x := [0x1.999999999999ap-4; 0x1.999999999999ap-3; 0x1.3333333333333p-2]%float in
+  let y := [0x1.3333333333333p-2; (-0x1.999999999999ap-4); 0x1.6666666666666p-1]%float in
+  let t := PrimFloat.mul (PrimFloat.opp 0x1.999999999999ap-3%float) (sqdist FOps x y) in
+  length x = length y /\ PrimFloat.is_finite t = true /\
+  Rabs (FR (oexp FOps t) - exp (FR t)) <= / 2 ^ 40 * exp (FR t).
+Proof. exact ex_rbf_exp. Qed.
